@@ -41,7 +41,7 @@ def _profile(rng):
 
 
 def section_random(ctx, clauses) -> None:
-    n = ctx.scale(120, 3000)
+    n = ctx.scale(120, 800)
     traces = []
     hist: dict = {}
     for i in range(n):
@@ -62,18 +62,22 @@ def section_random(ctx, clauses) -> None:
     return SC.CaseEval(ctx, 'store_random_traces', traces)
 
 
-def section_exhaustive(ctx, clauses) -> None:
-    """All interleavings of two sessions with three commands each."""
+def section_exhaustive(ctx, clauses):
+    """All interleavings (20) of two sessions with three commands each; in the
+    thorough tier over ALL program pairs of the 3-command alphabet `core3`."""
     traces = []
     total = 0
+    info = {}
     for name, alphabet in SC.ALPHABETS.items():
         progs = list(SC.exhaustive_programs(alphabet, 3))
+        rng = random.Random(f'{ctx.prop}-{ctx.seed}-exh-{name}')
         if ctx.quick:
-            rng = random.Random(f'{ctx.prop}-{ctx.seed}-exh-{name}')
-            progs = rng.sample(progs, 6)
-        elif len(progs) > 700:
-            rng = random.Random(f'{ctx.prop}-{ctx.seed}-exh-{name}')
-            progs = rng.sample(progs, 700)
+            progs = rng.sample(progs, 4)
+        elif name not in SC.EXHAUSTIVE_ALPHABETS:
+            progs = rng.sample(progs, 100)
+        info[name] = {'program_pairs': len(progs), 'all_pairs': not ctx.quick and
+                      name in SC.EXHAUSTIVE_ALPHABETS, 'schedules_each': 20,
+                      'commands': [repr(c) for c in alphabet]}
         for p1, p2 in progs:
             for sched in SC.schedules(3, 3):
                 labels = [('cmd', 1, ('select', 1, False)),
@@ -83,13 +87,39 @@ def section_exhaustive(ctx, clauses) -> None:
                     + SC.interleave(p1, p2, sched)
                 trace, mon = SC.run_sync(SC.monitored_fixed_trace(labels, nsess=2))
                 SC.report_trace(ctx, 'exhaustive:' + name, trace, mon, clauses, {'nsess': 2})
-                traces.append(trace)
+                traces.append(SC.Packed(trace, light=True))
                 total += 1
                 ctx.count(('sched', name, repr(labels)))
-    ctx.extra['exhaustive_schedules'] = {
-        'traces': total, 'alphabets': {k: [repr(c) for c in v] for k, v in SC.ALPHABETS.items()},
-        'all_program_pairs': not ctx.quick}
-    return SC.CaseEval(ctx, 'store_all_schedules', traces, shard=40)
+    ctx.extra['exhaustive_schedules'] = {'traces': total, 'alphabets': info}
+    ctx.exhaustive = False
+    return SC.CaseEval(ctx, 'store_all_schedules', traces, shard=60, light=True)
+
+
+def section_maildir(ctx, clauses):
+    """Monitors only (the model describes the dict backend): shadow clients and
+    the probe comparison on the maildir backend, reduced volume."""
+    from .. import store_maildir as SM
+    n = ctx.scale(16, 250)
+    steps = compared = 0
+    for i in range(n):
+        rng = random.Random(f'{ctx.prop}-{ctx.seed}-maildir-{i}')
+        nsess = rng.randint(2, 3)
+        trace, mon, run = SC.run_sync(SM.monitored_maildir_trace(
+            rng, nsess=nsess, nsteps=rng.randint(8, 20), layout=rng.choice(['++', 'fs'])))
+        steps += len(trace.steps)
+        compared += mon.n_compared
+        labels = trace.labels()
+        for f in mon.failures:
+            if f['clause'] in clauses:
+                ctx.failure(f['clause'], '[maildir] ' + f['what'],
+                            {'backend': 'maildir', 'labels': SC.labels_repr(labels[:f['step'] + 1]),
+                             'nsess': nsess, 'session': f['session'], 'step': f['step']},
+                            {**f['obs'], 'backend': 'maildir'})
+        for lab, resp, _ in trace.steps:
+            ctx.count(('maildir', repr(lab), repr(resp)),
+                      nontrivial=any(r[0] in ('expunge', 'exists', 'fetch') for r in resp))
+    ctx.extra['maildir_monitor_only'] = {'traces': n, 'steps': steps,
+                                         'views_compared_with_probe': compared}
 
 
 def section_witnesses(ctx, clauses, witnesses) -> None:
@@ -111,7 +141,9 @@ RULE = ('a case is one multi-session trace: 2-4 connections on the dict backend,
 ASSUMPTIONS = [
     'dict backend under asyncio: a command body runs without suspending (measured on every command '
     'of every trace; CHECK suspends once, before it reads or writes anything)',
-    'the maildir and redis backends are not covered by this check',
+    'the model and the theorems describe the dict backend; the maildir backend is only run '
+    'under the model-independent monitors at reduced volume (asyncio subsystem, in-process), '
+    'redis not at all',
     'session flags other than \\Recent are not defined by the dict backend (measured: '
     'SessionFlags._flags stays empty)',
 ]
@@ -125,6 +157,7 @@ def run(ctx) -> None:
     evals = [section_witnesses(ctx, clauses, WITNESSES),
              section_random(ctx, clauses),
              section_exhaustive(ctx, clauses)]
+    section_maildir(ctx, clauses)
     for ev in evals:
         ev.finish()
 
@@ -132,7 +165,11 @@ def run(ctx) -> None:
 def replay(ctx, obj) -> int:
     labels = SC.labels_parse(obj['labels'])
     nsess = obj.get('nsess') or max([l[1] for l in labels if l[0] in ('cmd', 'wake', 'done')] + [1])
-    trace, mon = SC.run_sync(SC.monitored_fixed_trace(labels, nsess=nsess))
+    if obj.get('backend') == 'maildir':
+        from .. import store_maildir as SM
+        trace, mon = SC.run_sync(SM.monitored_maildir_fixed(labels, nsess=nsess))
+    else:
+        trace, mon = SC.run_sync(SC.monitored_fixed_trace(labels, nsess=nsess))
     for j, (lab, resp, _o) in enumerate(trace.steps):
         print(j, lab, '\n     ', resp)
     for f in mon.failures:
